@@ -155,3 +155,39 @@ def rule_wrappers(rep, fb, select=None, floor=1):
     rB.done()
     rS.done()
     return specnames
+
+
+def rule_kernel_siblings(rep, fb, floor=1):
+    """B.4: kernels without a Python definition are compared with a declared sibling after abstracting the declared locals"""
+    import json, os
+    from ..core import VERIF
+    r = rep.rule("KSIB.undefined-siblings", "a kernel that has no Python definition agrees with its declared sibling kernel statement by statement once the declared differing locals are abstracted "
+                 "(e.g. ListArray_combinations vs RegularArray_combinations: only where list i starts and stops may differ)", floor=floor)
+    pairs = json.load(open(os.path.join(VERIF, "tables", "kernel_siblings.json")))
+    for pr in pairs:
+        fa, fbk = fb.kernel_pattern(pr["a"]), fb.kernel_pattern(pr["b"])
+        key = "%s~%s" % (pr["a"], pr["b"])
+        if fa is None or fbk is None:
+            r.fail(key, "src/cpu-kernels", "sibling kernel %s or %s not found" % (pr["a"], pr["b"]))
+            continue
+        absl = set(pr["abstract_locals"])
+
+        def nf(f):
+            body = kspec.cstmts(f["body"])
+            body = kspec._strip_trailing_return(body)
+
+            def drop(stmts):
+                out = []
+                for s in stmts:
+                    if s[0] == "assign" and s[1][0] == "var" and s[1][1] in absl:
+                        continue
+                    if s[0] == "if":
+                        s = ("if", s[1], drop(s[2]), drop(s[3]))
+                    elif s[0] in ("while", "dowhile"):
+                        s = (s[0], s[1], drop(s[2]))
+                    out.append(s)
+                return tuple(out)
+            return drop(body)
+        a, b = nf(fa), nf(fbk)
+        r.check(a == b, key, "%s:%d" % (fa["file"], fa["line"]), "%s and its sibling %s differ beyond %s: %s" % (pr["a"], pr["b"], sorted(absl), kspec.first_diff(a, b)), detail=pr["reason"][:80])
+    return r.done()
